@@ -29,7 +29,7 @@ pub struct Case {
 
 impl Case {
     pub fn new(kind: Kind, src: String) -> Case {
-        Case { kind, src, tags: vec![], path: String::new(), files: vec![], stdin: String::new(), rng: vec![], fuel: 20000, aux: String::new() }
+        Case { kind, src, tags: vec![], path: String::new(), files: vec![], stdin: String::new(), rng: vec![], fuel: 10000, aux: String::new() }
     }
     pub fn tag(mut self, t: &str) -> Case {
         self.tags.push(t.to_string());
@@ -159,8 +159,15 @@ pub fn evaluate(d: &mut Driver, case: &Case) -> Outcome {
             }
             let ir = imp::run_impl(&case.src, &case.path, case.fuel, 48);
             let skipped = matches!(ir.end, imp::End::Fuel);
+            // transcendental MATH results: both sides are faithful, not identical (Rust computes asinh / acosh /
+            // atanh by its own formulas, the model calls libm): compare numerically
+            let libm = case.tags.iter().any(|t| t == "math-libm" || t.starts_with("MATH."));
             let agree = match &mr {
-                Some(m) => skipped || imp::runs_agree(&ir, m),
+                Some(m) => {
+                    skipped
+                        || imp::runs_agree(&ir, m)
+                        || (libm && ir.class() == m.class() && imp::outputs_close(&ir.output, &m.output, 64))
+                }
                 None => false,
             };
             let impl_rec = format!("{} {}", ir.status_str(), hex(ir.output.as_bytes()));
